@@ -99,7 +99,7 @@ def single_node_part(prop, oprop, tier, rng, out, known, cov):
                 nfind += 1
                 break
     # correspondence (cases with a burst / mix have no model action: oracle only)
-    modelled = [(c, o) for (c, o) in co if c["node"]["k"] in asyncrun.MODELS and not any(a[0] in ("burst", "seq", "chain", "mix") for a in c["actions"])]
+    modelled = [(c, o) for (c, o) in co if c["node"]["k"] in asyncrun.MODELS and not any(a[0] in ("burst", "seq", "chain", "mix") for a in c["actions"]) and not c.get("react")]
     mism, errors = asyncrun.correspondence(prop, modelled)
     for p_, o_ in errors:
         out.violation("%s/correspondence-error" % prop, "coqc failed on generated cases: %s" % o_[-400:], {"file": p_}, no_input=True)
